@@ -34,24 +34,24 @@ type lPkg struct {
 }
 
 type loginPlan struct {
-	Knobs     Knobs  `json:"knobs"`
-	Encrypted bool   `json:"encrypted"`
-	KeyBits   int    `json:"key_bits"`
-	NonceLen  int    `json:"nonce_len"`
+	Knobs     Knobs `json:"knobs"`
+	Encrypted bool  `json:"encrypted"`
+	KeyBits   int   `json:"key_bits"`
+	NonceLen  int   `json:"nonce_len"`
 	// NonceShape: "" a counting pattern; "zero-end" / "zero-start": the last / first byte is 0x00; "zeros": all
 	// bytes 0x00; "spaces-end": the last two bytes are blanks (a nonce is binary data: every byte counts)
 	NonceShape string `json:"nonce_shape,omitempty"`
-	Remote    int    `json:"remote"`
-	Phase1    []lPkg `json:"phase1"`
-	Phase2    []lPkg `json:"phase2"`
-	Trunc1    int    `json:"trunc1"` // -1: deliver all with end-of-message; j: deliver only the first j packages, no end-of-message
-	Trunc2    int    `json:"trunc2"`
-	Cuts1     []int  `json:"cuts1,omitempty"`
-	Cuts2     []int  `json:"cuts2,omitempty"`
-	ReadSizes []int  `json:"read_sizes,omitempty"`
-	Async     bool   `json:"async,omitempty"`
-	Class     string `json:"class"` // MUST-SUCCEED | MUST-FAIL | EITHER, by construction
-	Edit      string `json:"edit"`
+	Remote     int    `json:"remote"`
+	Phase1     []lPkg `json:"phase1"`
+	Phase2     []lPkg `json:"phase2"`
+	Trunc1     int    `json:"trunc1"` // -1: deliver all with end-of-message; j: deliver only the first j packages, no end-of-message
+	Trunc2     int    `json:"trunc2"`
+	Cuts1      []int  `json:"cuts1,omitempty"`
+	Cuts2      []int  `json:"cuts2,omitempty"`
+	ReadSizes  []int  `json:"read_sizes,omitempty"`
+	Async      bool   `json:"async,omitempty"`
+	Class      string `json:"class"` // MUST-SUCCEED | MUST-FAIL | EITHER, by construction
+	Edit       string `json:"edit"`
 	// credentials (C09)
 	User     string   `json:"user"`
 	Password string   `json:"password_hex"`
